@@ -109,6 +109,34 @@ REG['C13'] = dict(
     'overload, held count)); non-trivial = the lock held at least one instant '
     'or a non-self-locking chain was watched for clamping')
 
+REG['C14'] = dict(
+    oracle='c14', profiles=[('ctrl', 3, None), ('lock', 1, None),
+                            ('dyn', 1, None)],
+    quick=5000, thorough=200000,
+    vacuity=['controlled_instants', 'uncontrolled_instants', 'conflicts',
+             'F_CONFLICT', 'clipped', 'defaulted', 'applicable_1',
+             'F_BOUNDARY_out_of_range_proposals', 'F_BOUNDARY_on_saturation'],
+    rule='rule sets of 0..4 rules (four built-in kinds wrapped by a recorder, '
+    'scripted rules with proposals far outside [-1,1], exactly +-1, one ulp '
+    'beyond, seeded overlaps); the proposals every rule returned at every '
+    'instant are recorded at the RuleBase seam and arbitrated by the model; '
+    'distinct = (chain kinds, schedule, fired faults, rule kinds, conflict / '
+    'clip / default seen); non-trivial = at least one controlled instant judged')
+
+REG['C15'] = dict(
+    oracle='c15', profiles=[('ctrl', 1, None)],
+    quick=5000, thorough=200000,
+    vacuity=['rule_calls', 'active_ConstantPWM', 'active_ReachAngularPosition',
+             'active_StartProportional', 'active_StartLimitCurrent',
+             'limit_current_instants', 'F_BOUNDARY_window_edge',
+             'F_BOUNDARY_exact_edge'],
+    rule='controlled simulations with the four built-in rules (parameters in '
+    'any unit, encoder/tachometer on any chain element, timer edges on grid '
+    'instants); the state each rule could see is captured when apply() runs '
+    'and the documented window/value evaluated in SI; distinct = (chain '
+    'kinds, schedule, fired faults, rule kinds, which rules became active); '
+    'non-trivial = at least one built-in rule call judged')
+
 NOT_APPLICABLE = [
     {'property_id': 'C05',
      'reason': 'stateless function of (value, from-unit, to-unit): no schedule, clock, fault, I/O or history for a simulator to act on; its quantifier is decided by exhaustive enumeration of unit pairs, a different technique (DESIGN.md section 6)'},
